@@ -97,11 +97,13 @@ Definition w_pl : payload := (0, 100, 1).
 Definition w_tables : tables := mkT
   (* vrf: proposer credential of key 1, precommit proofs of keys 1, 2, 3 for (seed 7, index 1) *)
   [((1, 7, 1, 1, 11), 21); ((1, 7, 3, 1, 12), 22); ((2, 7, 3, 1, 13), 23); ((3, 7, 3, 1, 14), 24);
-   ((2, 7, 1, 1, 15), 25)]
+   ((2, 7, 1, 1, 15), 25);
+   (* certificate proofs of keys 1, 2 *)
+   ((1, 7, 5, 1, 16), 26); ((2, 7, 5, 1, 17), 27)]
   (* seats *)
   [((21, 10, 5, 20), Some 2%Z); ((25, 10, 5, 20), Some 0%Z);
    ((22, 10, 10, 20), Some 4%Z); ((23, 10, 10, 20), Some 3%Z); ((24, 10, 10, 20), Some 7%Z);
-   ((22, 10, 2, 20), Some 1%Z)]
+   ((22, 10, 2, 20), Some 1%Z); ((26, 10, 10, 20), Some 4%Z); ((27, 10, 10, 20), Some 3%Z)]
   [((21, 2%Z), 31); ((25, 0%Z), 32)]
   [((10, true), 6); ((10, false), 5); ((2, true), 1); ((5, true), 3)]
   [(1, [(1, w_pl); (2, w_pl)]); (2, [(1, w_pl)]); (3, [(3, w_pl)])]
